@@ -375,6 +375,7 @@ Definition op_ok (o : bop) : Prop :=
   match o with
   | BSetTs t _ => 0 <= t < 18446744073709551616
   | BNewData d dims => data_in_range d /\ Forall (fun x => -32768 <= x <= 32767) dims
+  | BMutTs t => 0 <= t < 18446744073709551616
   | BResetTs | BClear => True
   end.
 
@@ -413,7 +414,7 @@ Qed.
 Lemma bstep_inv v src off p o p' :
   binv v src off p -> op_ok o -> bstep p o = Ok (p', false) -> binv v src off p'.
 Proof.
-  intros [Iv Is Io Iq It Ib] Ho E. destruct o as [t rid| | |d dims]; cbn [bstep] in E.
+  intros [Iv Is Io Iq It Ib] Ho E. destruct o as [t rid| | |d dims|t]; cbn [bstep] in E.
   - (* SetTimestamp *)
     inversion E; subst p'; clear E. cbn [op_ok] in Ho.
     constructor; cbn [set_timestamp version sourceID offset sequenceNumber timestamp tsT]; try assumption.
@@ -465,6 +466,17 @@ Proof.
       split; [exact W16|].
       split; [change (wrap16 (w * zlen vals) <= 8192); lia|].
       exact W8.
+  - (* the caller changes ts.T *)
+    cbn [op_ok] in Ho. injection E as Ep. subst p'. unfold mut_ts.
+    destruct (timestamp p) as [ts|] eqn:ET.
+    2:{ constructor; try assumption. now rewrite ET. }
+    constructor; try assumption.
+    destruct Ib as [[N1 [N2 [N3 [N4 N5]]]]|[w [vals [dims [D1 [D2 [D3 [D4 [D5 [D6 [D7 [D8 [D9 [D10 D11]]]]]]]]]]]]]].
+    + left. unfold no_data, base_header in *. rewrite ET in N5. repeat split; assumption.
+    + right. exists w, vals, dims. unfold base_header in *. rewrite ET in D11.
+      split; [exact D1|]. split; [exact D2|]. split; [exact D3|]. split; [exact D4|].
+      split; [exact D5|]. split; [exact D6|]. split; [exact D7|]. split; [exact D8|].
+      split; [exact D9|]. split; [exact D10|]. exact D11.
 Qed.
 
 Lemma build_inv v src off : forall ops p r rets,
@@ -766,4 +778,48 @@ Proof.
       destruct (data_width d) as [[w vals]|]; eauto. }
     rewrite E. destruct (IH q) as [I1 I2]. destruct (build q ops) as [r rs]. cbn [fst snd] in *.
     split; [assumption|]. intros [H|H]; [destruct e; discriminate|contradiction].
+Qed.
+
+
+(* ================================================================== filler packets *)
+
+Lemma pretend_vals_forall (P : Z -> Prop) d n : Forall P d -> forall is x,
+  pretend_vals d n is = Ok x -> Forall P x.
+Proof.
+  intros Fd. induction is as [|i is IH]; intros x E; cbn [pretend_vals] in E.
+  - injection E as <-. constructor.
+  - destruct (n =? 0); [discriminate|].
+    unfold idx in E. destruct ((0 <=? Z.rem i n) && (Z.rem i n <? zlen d)) eqn:R; [|discriminate].
+    destruct (pretend_vals d n is) as [l|] eqn:El; [|discriminate].
+    injection E as <-. constructor; [|now apply IH].
+    pose proof (proj1 (Forall_forall _ _) Fd) as Fd'. apply Fd'.
+    unfold znth. destruct (Z.rem i n <? 0) eqn:Ln; [lia|]. apply nth_In. unfold zlen in R. lia.
+Qed.
+
+(* MakePretendPacket(s, n), n <> 0, of a built packet is again a packet of the kind the constructors build *)
+Lemma pretend_binv v src off p s n :
+  binv v src off p -> 0 <= s < 4294967296 -> n <> 0 ->
+  exists q, make_pretend p s n = Ok q /\ binv v src off q /\ sequenceNumber q = s /\
+            shape q = shape p /\ timestamp_T q = timestamp_T p /\
+            same_kind_count (pdat q) (pdat p) = true.
+Proof.
+  intros [Iv Is Io Iq It Ib] Hs Hn. unfold make_pretend.
+  assert (G : forall d, exists x, pretend_vals d n (zrange 0 (zlen d)) = Ok x /\ zlen x = zlen d).
+  { intros d. destruct (pretend_vals_ok d n Hn (zrange 0 (zlen d))) as [x [E L]].
+    - unfold zrange. pose proof (zrange_nat_bounds (Z.to_nat (zlen d)) 0) as B.
+      eapply Forall_impl; [|exact B]. cbn beta. pose proof (zlen_nonneg d). intros; lia.
+    - exists x. split; [assumption|]. rewrite L. apply zlen_zrange0, zlen_nonneg. }
+  destruct Ib as [[N1 [N2 [N3 [N4 N5]]]]|[w [vals [dims [D1 [D2 [D3 [D4 [D5 [D6 [D7 [D8 [D9 [D10 D11]]]]]]]]]]]]]].
+  - rewrite N1. eexists. split; [reflexivity|]. split; [|repeat split].
+    constructor; try assumption. left. unfold no_data. repeat split; assumption.
+  - destruct (data_width_cases _ _ _ D1) as [[Ed Ew]|[[Ed Ew]|[Ed Ew]]]; rewrite Ed; subst w;
+      destruct (G vals) as [x [Ex Lx]]; rewrite Ex;
+      (eexists; split; [reflexivity|]; split;
+       [ constructor; try assumption; right; eexists; exists x, dims;
+         split; [reflexivity|]; split; [auto|]; split; [exact D3|]; split; [exact D4|];
+         split; [exact D5|]; split; [exact D6|]; split; [exact D7|];
+         split; [exact (pretend_vals_forall _ _ _ D8 _ _ Ex)|];
+         split; [transitivity (payloadLength p); [reflexivity|rewrite Lx; exact D9]|];
+         split; [exact D10|exact D11]
+       | repeat split; cbn [set_seq_data pdat same_kind_count]; lia ]).
 Qed.
